@@ -336,20 +336,38 @@ def newick(tree, lengths=None, top=True):
     return s + name + ln(name)
 
 
-def column_likelihoods(tree, root_probs, psubs, tip_profiles):
+def column_likelihoods(tree, root_probs, psubs, tip_profiles, block=32768):
     """Likelihood of every column by explicit summation over all assignments of states to
     the internal nodes.
 
-    psubs: edge name -> (S,S) P matrix (row = parent state); tip_profiles: tip name -> (ncols,S)
-    0/1 compatibility matrix. Returns (ncols,) array.
+    psubs: edge name -> (S,S) P matrix (row = parent state); tip_profiles: tip name -> either a
+    (ncols,S) 0/1 compatibility matrix or a pair (U, idx): U = (nsymbols,S) compatibility matrix of
+    the distinct symbols, idx = (ncols,) symbol index of every column. Returns (ncols,) array.
+    Columns are processed in blocks to bound memory.
     """
+    prof = {}
+    for n, v in tip_profiles.items():
+        if isinstance(v, tuple):
+            prof[n] = (numpy.asarray(v[0], float), numpy.asarray(v[1]))
+        else:
+            v = numpy.asarray(v, float)
+            prof[n] = (v, numpy.arange(v.shape[0]))
+    ncols = len(next(iter(prof.values()))[1])
+    out = numpy.empty(ncols)
+    for lo in range(0, max(ncols, 1), block):
+        sl = slice(lo, min(ncols, lo + block))
+        out[sl] = _column_block(tree, root_probs, psubs, {n: (U, idx[sl]) for n, (U, idx) in prof.items()})
+    return out
+
+
+def _column_block(tree, root_probs, psubs, prof):
     nodes = tree_nodes(tree)
     internals = [n for n, _, t in nodes if not t]  # internals[0] is the root
     S = len(root_probs)
     root_probs = numpy.asarray(root_probs, float)
-    ncols = next(iter(tip_profiles.values())).shape[0]
+    ncols = len(next(iter(prof.values()))[1])
     # for a tip edge: M[parent state, column] = sum over compatible tip states of P[parent, s]
-    tipM = {n: psubs[n] @ tip_profiles[n].T for n, p, t in nodes if t}
+    tipM = {n: (psubs[n] @ prof[n][0].T)[:, prof[n][1]] for n, p, t in nodes if t}
     root_tips = [n for n, p, t in nodes if t and p == internals[0]]
     other_tips = [(n, internals.index(p)) for n, p, t in nodes if t and p != internals[0]]
     int_edges = [(internals.index(n), internals.index(p), psubs[n]) for n, p, t in nodes if not t and p is not None]
